@@ -246,10 +246,20 @@ def rule_clean(ctx):
             same = (isinstance(v, Form) and isinstance(cv, Form) and v == cv) or (isinstance(v, Const) and isinstance(cv, Const) and v == cv)
             ctx.check("C14.4", same, clean, cst, f"clean(): {name} = {cv!r}", f"default of __init__ ({v!r})", f"clean() sets {name} to {cv!r}, __init__'s default is {v!r}")
     # other attributes are deleted
-    dels = [n for n in body_nodes(clean) if isinstance(n, ast.Call) and src_of(n.func) == "delattr"]
+    # the deletion loop may keep its name filter in a private helper: look through package callees of clean() (one level)
+    scope = list(body_nodes(clean))
+    for n in list(scope):
+        if isinstance(n, ast.Call) and isinstance(n.func, ast.Name):
+            r = pkg.resolve_name(clean.module, clean, n.func.id)
+            if r and r.startswith(PKG + ".") and r.count(".") == 2:
+                q = r.split(".", 1)[1]
+                callee = pkg.module(q.split(".")[0]).funcs.get(q)
+                if callee is not None:
+                    scope.extend(body_nodes(callee))
+    dels = [n for n in scope if isinstance(n, ast.Call) and src_of(n.func) == "delattr"]
     lst = None
     from ..forms import TupleV
-    for n in body_nodes(clean):
+    for n in scope:
         if isinstance(n, ast.Compare) and len(n.ops) == 1 and isinstance(n.ops[0], (ast.In, ast.NotIn)):
             # the kept-name collection may be a literal or a module-level constant: evaluate it
             try:
